@@ -1347,7 +1347,12 @@ def classify_start_dependence(case, hits):
                 if (o.get('q') == 'DF' or (o.get('q') == 'batch' and o.get('kind') == 'DF')) and o.get('ph') == op.get('ph', o.get('ph')):
                     kept = kept or not o.get('rm', False)
                     break
-            if kept and any(wide(o) for o in H[:idx + 1]):
+            # the finding is "the solve started from the kept set ends in ANOTHER solution": the two answers are then grossly
+            # different (other sign, or a factor above 5) - also, rarely, inside the window above (thorough tier, 1 of 12000)
+            import re as _re
+            vals = [float(v) for v in _re.findall(r'\(\[(-?[0-9][0-9.eE+-]*)\]', msg)[:2]]
+            gross = len(vals) == 2 and (vals[0] * vals[1] < 0 or max(abs(vals[0]), abs(vals[1])) > 5 * min(abs(vals[0]), abs(vals[1])))
+            if kept and (any(wide(o) for o in H[:idx + 1]) or gross):
                 cls = KF_START
         out.append((clause, cls, msg, idx))
     return out
